@@ -711,7 +711,21 @@ var lifeOps = []string{"Suspend", "Resume", "SetSize", "Fini"}
 
 // runLifecycle executes one order of lifecycle calls followed by a probe of
 // ordinary calls; every call must return (exact deadlock verdict).
-func runLifecycle(order []int, ch *simrt.Chooser, withHost bool) (*hx.Failure, *simrt.Sim, error) {
+// lifeOpts: how the rest of the application behaves meanwhile.  burst: key
+// callbacks the host delivers back to back (the event queue holds 10);
+// pollerPause: ms the event loop spends on each event; handlerCalls: the
+// event loop calls Size()/Show() for each event, as applications do.
+type lifeOpts struct {
+	withHost     bool
+	burst        int
+	pollerPause  int
+	handlerCalls bool
+	appPause     int  // ms before each lifecycle call
+	burstFirst   bool // the burst comes before the ticking keys
+}
+
+func runLifecycle(order []int, ch *simrt.Chooser, lo lifeOpts) (*hx.Failure, *simrt.Sim, error) {
+	withHost := lo.withHost
 	w, err := newWW(ch)
 	if err != nil {
 		return nil, nil, err
@@ -726,6 +740,9 @@ func runLifecycle(order []int, ch *simrt.Chooser, withHost bool) (*hx.Failure, *
 			return
 		}
 		for i, o := range order {
+			if lo.appPause > 0 {
+				simrt.Sleep("app.pause", hx.Ms(lo.appPause))
+			}
 			w.inCall = fmt.Sprintf("%s (call #%d of %v)", lifeOps[o], i+1, names)
 			switch lifeOps[o] {
 			case "Suspend":
@@ -748,13 +765,28 @@ func runLifecycle(order []int, ch *simrt.Chooser, withHost bool) (*hx.Failure, *
 	w.s.Spawn("poller", func() {
 		simrt.Sleep("poller.start", hx.Ms(1))
 		for w.scr.PollEvent() != nil {
+			if lo.pollerPause > 0 {
+				simrt.Sleep("poller.handle", hx.Ms(lo.pollerPause))
+			}
+			if lo.handlerCalls {
+				w.scr.Size()
+				simrt.Yield("poller.between")
+				w.scr.Show()
+			}
 		}
 	})
 	if withHost {
 		w.s.Spawn("host", func() {
-			for i := 0; i < 6; i++ {
-				simrt.Sleep("host.tick", hx.Ms(1))
-				w.host.Invoke("onKeyEvent", "a", false, false, false, false)
+			if !lo.burstFirst {
+				for i := 0; i < 6; i++ {
+					simrt.Sleep("host.tick", hx.Ms(1))
+					w.host.Invoke("onKeyEvent", "a", false, false, false, false)
+				}
+			}
+			for i := 0; i < lo.burst; i++ {
+				// (each callback runs on its own goroutine, as in a browser
+				// the Go side of a callback does)
+				simrt.Go("js-callback", func() { w.host.Invoke("onKeyEvent", "b", false, false, false, false) })
 			}
 		})
 	}
@@ -797,7 +829,7 @@ func TestC19(t *testing.T) {
 			continue
 		}
 		hx.Arm("C19 lifecycle")
-		f, s, err := runLifecycle(order, &simrt.Chooser{}, oi%2 == 0)
+		f, s, err := runLifecycle(order, &simrt.Chooser{}, lifeOpts{withHost: oi%2 == 0})
 		if err != nil {
 			t.Fatalf("HARNESS: %v", err)
 		}
@@ -832,8 +864,11 @@ func TestC19(t *testing.T) {
 			for i := 0; i < n; i++ {
 				order = append(order, rapid.IntRange(0, 3).Draw(rt, "lop"))
 			}
-			ch := hx.DrawChooser(rt, 40)
-			f, s, err := runLifecycle(order, ch, true)
+			lo := lifeOpts{withHost: true, burst: rapid.SampledFrom([]int{0, 0, 4, 12, 20}).Draw(rt, "burst"),
+				pollerPause: rapid.SampledFrom([]int{0, 0, 1, 3}).Draw(rt, "pollerpause"), handlerCalls: rapid.Bool().Draw(rt, "handlercalls"),
+				appPause: rapid.SampledFrom([]int{0, 1, 2, 5}).Draw(rt, "apppause"), burstFirst: rapid.Bool().Draw(rt, "burstfirst")}
+			ch := hx.DrawChooser(rt, 80)
+			f, s, err := runLifecycle(order, ch, lo)
 			if err != nil {
 				rt.Fatalf("HARNESS: %v", err)
 			}
@@ -843,7 +878,7 @@ func TestC19(t *testing.T) {
 				rt.Fatalf("HARNESS: %v", err)
 			}
 			if f != nil {
-				hx.WriteTrace("C19", f, map[string]interface{}{"order": order}, tr, nil, sig)
+				hx.WriteTrace("C19", f, map[string]interface{}{"order": order, "opts": fmt.Sprintf("%+v", lo)}, tr, nil, sig)
 				rt.Fatalf("VIOLATION %s: %s", f.Tag, f.Msg)
 			}
 		}
